@@ -46,6 +46,7 @@ type C18Expect struct {
 	Plain     map[string]string `json:"plain,omitempty"`     // name -> absolute path of a plain page (render == EvaluateString(content))
 	NotNames  []string          `json:"not_names,omitempty"` // candidates that must be 'template not found'
 	Adversary bool              `json:"adversary,omitempty"`
+	LinkOf    map[string]string `json:"link_of,omitempty"` // name -> name of the template its file is a symlink to
 	Spelling  string            `json:"spelling,omitempty"`
 	// fault
 	Fault      string   `json:"fault,omitempty"`
@@ -80,8 +81,16 @@ func genC18Registry(r *Rng) *Scenario {
 	base := Pick(r, []string{"templates", "tpl/views", "t", "a/b/c"})
 	ext := Pick(r, []string{".tw", ".tw.html", ".html"})
 	sp := Pick(r, spellings(base))
-	ex := &C18Expect{Kind: "registry", Plain: map[string]string{}, Spelling: sp.kind}
 	root := sc.Cwd + "/" + base
+	if r.Chance(12) {
+		// parent segments that lead back to the working directory itself: the templates
+		// live directly in the cwd
+		sp = spelling{"parent-to-cwd", Pick(r, []string{"sub/..", "sub/../", "sub/deeper/../.."})}
+		root = sc.Cwd
+		base = "."
+		sc.Files = append(sc.Files, File{Path: sc.Cwd + "/sub/deeper/keep.txt", Data: "x", Role: "other"})
+	}
+	ex := &C18Expect{Kind: "registry", Plain: map[string]string{}, Spelling: sp.kind}
 	seen := map[string]bool{}
 	add := func(rel, data, role string) {
 		if seen[rel] {
@@ -103,6 +112,27 @@ func genC18Registry(r *Rng) *Scenario {
 		add(rel+ext, body, "page")
 		ex.Names = append(ex.Names, rel)
 		ex.Plain[rel] = root + "/" + rel + ext
+	}
+	// contents that a reader could mangle: BOM, CRLF, trailing newline, empty, whitespace only
+	odd := []string{"\ufeff<p>bom {{ n1 }}</p>", "line1\r\nline2 {{ n1 }}\r\n", "<p>nl {{ n1 }}</p>\n", "", "  \n\t\n", "no newline at end {{ s0 }}"}
+	if r.Chance(60) {
+		rel := "odd" + fmt.Sprint(r.Intn(3))
+		add(rel+ext, odd[r.Intn(len(odd))], "page")
+		if seen[rel+ext] {
+			ex.Names = append(ex.Names, rel)
+			ex.Plain[rel] = root + "/" + rel + ext
+		}
+	}
+	// a template that is a symbolic link to another template file
+	if r.Chance(30) && len(ex.Names) > 0 {
+		target := ex.Names[0]
+		sc.Files = append(sc.Files, File{Path: root + "/linked" + ext, Kind: "link", Target: filepath.Base(target) + ext, Role: "page"})
+		if !strings.Contains(target, "/") {
+			ex.Names = append(ex.Names, "linked")
+			ex.LinkOf = map[string]string{"linked": target}
+		} else {
+			sc.Files = sc.Files[:len(sc.Files)-1]
+		}
 	}
 	// a layout and a page using it
 	if r.Chance(60) {
@@ -199,6 +229,13 @@ func checkC18Registry(sc *Scenario, acc *Acc) *c18Fail {
 			return &c18Fail{sig: "registry:expected-name-missing:" + cause, clause: "a file whose name ends in the extension is not registered under its relative path without the extension",
 				detail: fmt.Sprintf("name %q, dir spelling %q, ext %q", name, sc.Ops[0].Cfg.Dir, sc.Ops[0].Cfg.Ext), got: o.Short()}
 		}
+		if tgt, ok := ex.LinkOf[name]; ok {
+			e := w.RunOp(Op{Kind: "string", Name: tgt, Data: c18Data}, Budget)
+			if o.Kind != e.Kind || o.Out != e.Out {
+				return &c18Fail{sig: "registry:symlinked-template-differs", clause: "a template file that is a symbolic link to another template does not render like its target",
+					detail: fmt.Sprintf("name %q -> %q", name, tgt), exp: e.Short(), got: o.Short()}
+			}
+		}
 		if p, ok := ex.Plain[name]; ok {
 			var content string
 			for _, f := range sc.Files {
@@ -235,6 +272,9 @@ func checkC18Registry(sc *Scenario, acc *Acc) *c18Fail {
 	}
 	// EvaluateFile == EvaluateString(content)
 	for _, f := range sc.Files {
+		if f.Kind != "" {
+			continue // links and directories have no content of their own
+		}
 		a := w.RunOp(Op{Kind: "evalfile", Name: f.Path, Data: c18Data}, Budget)
 		b := w.RunOp(Op{Kind: "evalstr", Src: f.Data, Data: c18Data}, Budget)
 		if a.Key() != b.Key() {
@@ -461,7 +501,21 @@ func checkC18Fault(sc *Scenario, budget int64, baseline map[string]Obs, acc *Acc
 	}
 	switch {
 	case ex.Fault == "failop":
-		// any k-th operation failing: (nil, err) or a consistent success
+		// any k-th operation failing: (nil, err), or a success that lost nothing
+		if lo.Kind == "ok" && fired > 0 && baseline != nil {
+			for _, name := range append([]string{ex.FaultName}, ex.Others...) {
+				b, ok := baseline[name]
+				if !ok {
+					continue
+				}
+				o := w.RunOp(Op{Kind: "string", Name: name, Data: c18Data}, Budget)
+				if o.Key() != b.Key() {
+					f := mk("a file-system operation of the load failed, loading reported success, and a template is missing or different afterwards", "load-succeeds-with-loss")
+					f.exp, f.got = b.Short(), o.Short()
+					return f, true
+				}
+			}
+		}
 		return nil, fired > 0
 	case ex.Fault == "vanish":
 		return mustFail("gone when it is read"), hit
